@@ -192,6 +192,23 @@ var c11Injectors = []c11Injector{
 		return true
 	}},
 	// ---- dangling / ill-kinded references: no crash, same verdict
+	{"identityref-with-base-defined-in-a-submodule", false, func(r *core.Rng, ms *yang.ModSet) bool {
+		m := modA(ms)
+		sub := yang.S("submodule", "sub-id", yang.S("belongs-to", m.Arg, yang.S("prefix", pfx(m))),
+			yang.S("identity", "sub-base"), yang.S("identity", "sub-derived", yang.S("base", "sub-base")),
+			yang.S("leaf", "sub-idref", yang.S("type", "identityref", yang.S("base", "sub-base"))))
+		addBody(m, yang.S("include", "sub-id"))
+		ms.Mods = append(ms.Mods, sub)
+		return true
+	}},
+	{"identity-of-the-module-derived-from-one-in-its-submodule", false, func(r *core.Rng, ms *yang.ModSet) bool {
+		m := modA(ms)
+		sub := yang.S("submodule", "sub-id2", yang.S("belongs-to", m.Arg, yang.S("prefix", pfx(m))), yang.S("identity", "sub-base2"), yang.S("feature", "sub-feat"))
+		addBody(m, yang.S("include", "sub-id2"), yang.S("identity", "mod-derived", yang.S("base", "sub-base2")),
+			yang.S("leaf", "mod-idref", yang.S("type", "identityref", yang.S("base", "mod-derived")), yang.S("if-feature", "sub-feat")))
+		ms.Mods = append(ms.Mods, sub)
+		return true
+	}},
 	{"unknown-feature-behind-a-disabled-feature", false, func(r *core.Rng, ms *yang.ModSet) bool {
 		addBody(modA(ms), yang.S("feature", "dg-plain"), yang.S("feature", "dg-f", yang.S("if-feature", "dg-plain"), yang.S("if-feature", "no-such-feature")))
 		return true
